@@ -211,7 +211,9 @@ ENC = {"kida": enc_kida, "umist": enc_umist, "leeds": enc_leeds, "uclchem": enc_
 NONDATA = {"kida": ["", "   ", "\t"], "umist": ["", "  "], "leeds": ["", "     "], "uclchem": ["", " "], "naunet": ["", "   "],
            "krome": ["", "  ", "# a comment", "#1,H,H,,H2", "// another comment", "@common: user_crate,user_Av", "@var: Hnuclei = get_Hnuclei(n(:))",
                      "@var: T32 = Tgas/3d2"]}
-KFORMATS = ["idx,R,R,R,P,P,P,P,Tmin,Tmax,rate", "idx,R,R,P,P,Tmin,Tmax,rate", "idx,r,r,p,p,p,rate", "idx,R,R,R,P,P,P,P,P,Tmin,Tmax,rate", "R,R,P,P,P,rate"]
+KFORMATS = ["idx,R,R,R,P,P,P,P,Tmin,Tmax,rate", "idx,R,R,P,P,Tmin,Tmax,rate", "idx,r,r,p,p,p,rate", "idx,R,R,R,P,P,P,P,P,Tmin,Tmax,rate", "R,R,P,P,P,rate",
+            # layouts that do not start with idx (their first characters occur in the directive's own name)
+            "r,r,p,p,tmin,tmax,rate", "tmin,tmax,idx,r,r,p,p,rate", "tmax,tmin,r,r,p,rate", "r,p,p,rate"]
 
 
 def impl_read(path, fmt, tables=None):
